@@ -300,10 +300,23 @@ pub fn run(mut run: Run) -> i32 {
             let t = g.affine_transform(m);
             acc.evals += 6;
             let wit = |what: &str| json!({"geometry": format!("{:?}", g), "map": name, "transformed": format!("{:?}", t), "what": what});
-            let normalised = matches!(g, Geometry::Rect(_) | Geometry::Triangle(_));
+            // Rect and Triangle re-normalise their corner order when rebuilt (documented; C19 known finding for Triangle), so the *sign* of their
+            // area is not carried through a map; for them, and for collections holding one, the unsigned area is compared
+            fn has_normalising_member(g: &Geometry<f64>) -> bool {
+                match g {
+                    Geometry::Rect(_) | Geometry::Triangle(_) => true,
+                    Geometry::GeometryCollection(gc) => gc.0.iter().any(has_normalising_member),
+                    _ => false,
+                }
+            }
+            let normalised = has_normalising_member(g);
+            let (u0, u1) = (g.unsigned_area(), t.unsigned_area());
+            if (u1 - u0 * s * s).abs() > 1e-12 * (1.0 + u0 * s * s) {
+                acc.viol("unsigned area does not scale by s^2".into(), idx, || wit(&format!("unsigned area {} -> {}", u0, u1)));
+            }
             let a1 = t.signed_area();
             let want_area = if *refl && !normalised { -area0 } else { area0 } * s * s;
-            if (a1 - want_area).abs() > 1e-12 * (1.0 + want_area.abs()) && !(normalised && (a1.abs() - want_area.abs()).abs() <= 1e-12) {
+            if (a1 - want_area).abs() > 1e-12 * (1.0 + want_area.abs()) && !normalised {
                 acc.viol("area does not scale by s^2 (with sign flip under reflection)".into(), idx, || wit(&format!("area {} -> {}", area0, a1)));
             }
             if crate::with_geom!(&t, x => x.is_valid()) != valid0 {
